@@ -264,3 +264,59 @@ Fixpoint run_cops_script (cs : list cop) (script : list reply) : list (list msg 
                  | _ => run_cops_script cs' (skipn (length tr) script)
                  end
   end.
+
+(* ------------------------------------------------------------------ *)
+(* send_pages takes an iterator, and the iterator is the caller's code: each time a page is taken from it, it may itself
+   hold a conversation on the same bus -- through the same Sign object or through another -- before it yields the page.
+   [prelude cs] is that conversation: the calls [cs] in order; what a call returned, or that it failed with the protocol
+   error, is the iterator's business and is dropped ([catch]); a panic in it unwinds through send_pages; a bus error in it
+   is the interpreter's business as always.  The iterator is cloned afresh for every attempt of the transfer, so the
+   conversations are held again on every attempt. *)
+Fixpoint catch {A : Type} (p : prog A) : prog unit :=
+  match p with
+  | Ret _ => Ret tt
+  | Fail => Ret tt
+  | Crash => Crash
+  | Send m k => Send m (fun r => catch (k r))
+  end.
+
+Fixpoint prelude (cs : list cop) : prog unit :=
+  match cs with
+  | [] => Ret tt
+  | c :: t => catch (cop_prog c) ;;; prelude t
+  end.
+
+Fixpoint send_items_with (items : list (prog unit * list N)) (count : N) : prog N :=
+  match items with
+  | [] => Ret count
+  | (pre, item) :: t =>
+      pre ;;; (c <- send_chunks (chunks16 item) 0 count ;; send_items_with t c)
+  end.
+
+Definition attempt_with (a : N) (op : operation) (items : list (prog unit * list N)) : prog (option msg) :=
+  expect (RequestOperation a op) (Some (AckOperation a op)) ;;;
+  n <- send_items_with items 0 ;;
+  expect (DataChunksSent n) None ;;;
+  send (QueryState a).
+
+Fixpoint transfer_loop_with (retries : nat) (a : N) (op : operation) (items : list (prog unit * list N))
+         (success failure : state) : prog unit :=
+  r <- attempt_with a op items ;;
+  match retries with
+  | S retries' =>
+      if omsg_eqb r (Some (ReportState a failure))
+      then transfer_loop_with retries' a op items success failure
+      else verify (Some (ReportState a success)) r
+  | O => verify (Some (ReportState a success)) r
+  end.
+
+(* Sign::send_pages over an iterator that holds the conversation [fst item] before it yields the page [snd item] *)
+Definition send_pages_with (a : N) (items : list (list cop * page)) : prog flip_style :=
+  transfer_loop_with 2 a ReceivePixels (map (fun it => (prelude (fst it), p_bytes (snd it))) items)
+                     PixelsReceived PixelsFailed ;;;
+  expect (PixelsComplete a) None ;;;
+  r <- send (QueryState a) ;;
+  match r with
+  | Some (ReportState a' ShowingPages) => if a' =? a then Ret Automatic else Ret Manual
+  | _ => Ret Manual
+  end.
